@@ -73,7 +73,9 @@ def domain_of(ex, v: Any, st: State) -> Domain:
             e = M.setord(ex.hashseed, z, i)
             s.assume(M.has(z, e))
             return T(e)
-        return Domain(M.klen(z), el, "set")
+        d = Domain(M.klen(z), el, "set")
+        d.elem_term = lambda i, z=z: M.setord(ex.hashseed, z, i)
+        return d
     if h == "PathHolder":
         z = ex.term(v, st)
         seq = z3.Select(st.ph, z)
@@ -234,14 +236,37 @@ def exec_for(ex, stmt: ast.For, st: State) -> List[Tuple[State, Any]]:
         if isinstance(itv, Raised):
             out.append((s, itv))
             continue
+        if isinstance(itv, T) and itv.hint is None and ex.hint_of(itv, s) is None \
+                and ex.refine_hint(itv, s, ("list", "tuple", "str", "dict", "set")) is None:
+            # statically unknown iterable: fork over the container kinds it may be
+            rest = s
+            alts = []
+            for kind_ in ("list", "tuple", "set", "dict", "str"):
+                cond = M.isinstance_f(ex.ct, itv.z, kind_)
+                if ex.sat(rest, cond):
+                    alts.append((rest.fork().assume(cond), T(itv.z, kind_)))
+                rest = rest.assume(z3.Not(cond))
+            if ex.sat(rest):
+                raise Unsupported(f"iteration over a value that may be none of list/tuple/set/dict/str")
+        else:
+            alts = [(s, itv)]
+        for s, itv in alts:
+            out += _for_one(ex, stmt, info, itv, s)
+    return out
+
+
+def _for_one(ex, stmt: ast.For, info, itv: Any, s: State) -> List[Tuple[State, Any]]:
+    out: List[Tuple[State, Any]] = []
+    if True:
         dom = domain_of(ex, itv, s)
         if dom.concrete is not None:
             out += unroll(ex, stmt, dom.concrete, s)
-            continue
+            return out
         k = loop_ordinal(info, stmt)
         inv = ex.contracts.lookup_invariant(info, k)
         if inv is None:
             raise Unsupported(f"loop #{k} of {info.qualname} (line {stmt.lineno}) has no sidecar invariant")
+        ex.loop_domain = dom
         out += with_invariant(ex, stmt, dom, inv, info, k, s)
     return out
 
